@@ -160,6 +160,62 @@ def _has_return_list(stmts):
     return any(_has_return(s) for s in stmts)
 
 
+def _only_iterated_or_starred(gnode, p):
+    """Is parameter p of the helper only used as `for x in p` or as `*p` in a call?"""
+    parent = {}
+    for n in ast.walk(gnode):
+        for c in ast.iter_child_nodes(n):
+            parent[id(c)] = n
+    for n in ast.walk(gnode):
+        if isinstance(n, ast.Name) and n.id == p:
+            par = parent.get(id(n))
+            if isinstance(par, ast.For) and par.iter is n:
+                continue
+            if isinstance(par, ast.Starred) and isinstance(parent.get(id(par)), ast.Call):
+                continue
+            return False
+    return True
+
+
+class _SpliceStarredTuples(ast.NodeTransformer):
+    """f(*(a, b), c) -> f(a, b, c)"""
+
+    def visit_Call(self, node):
+        self.generic_visit(node)
+        if any(isinstance(x, ast.Starred) and isinstance(x.value, ast.Tuple) for x in node.args):
+            new = []
+            for x in node.args:
+                if isinstance(x, ast.Starred) and isinstance(x.value, ast.Tuple):
+                    new.extend(x.value.elts)
+                else:
+                    new.append(x)
+            node.args = new
+        return node
+
+
+def _unroll_literal_loops(stmts):
+    """`for x in (a, b): BODY` over a literal tuple of plain names / constants (what a tuple parameter of an inlined
+    helper became) -> BODY[x := a]; BODY[x := b]."""
+    out = []
+    for i, st in enumerate(stmts):
+        for fld in ("body", "orelse", "finalbody"):
+            sub = getattr(st, fld, None)
+            if isinstance(sub, list) and sub and isinstance(sub[0], ast.stmt) and not isinstance(st, (ast.FunctionDef, ast.AsyncFunctionDef, ast.ClassDef)):
+                setattr(st, fld, _unroll_literal_loops(sub))
+        for h in getattr(st, "handlers", []) or []:
+            h.body = _unroll_literal_loops(h.body)
+        if isinstance(st, ast.For) and not st.orelse and isinstance(st.target, ast.Name) and isinstance(st.iter, ast.Tuple) and len(st.iter.elts) <= 4 \
+                and all(isinstance(e_, (ast.Name, ast.Constant)) for e_ in st.iter.elts) and not _own_breaks(st.body) \
+                and not any(isinstance(x, ast.Continue) for b in st.body for x in ast.walk(b)) \
+                and not any(isinstance(x, ast.Name) and x.id == st.target.id and isinstance(x.ctx, (ast.Store, ast.Del)) for b in st.body for x in ast.walk(b)) \
+                and not any(isinstance(x, ast.Name) and x.id == st.target.id for later in stmts[i + 1:] for x in ast.walk(later)):
+            for e_ in st.iter.elts:
+                out += [_SubstExpr({st.target.id: e_}).visit(b) for b in _cp(st.body)]
+            continue
+        out.append(st)
+    return out
+
+
 class _SubstConst(ast.NodeTransformer):
     def __init__(self, consts):
         self.consts = consts
@@ -320,7 +376,7 @@ class Flattener:
         if any(d not in ("staticmethod", "classmethod") for d in g.decorators):
             raise CannotInline("decorated helper")
         a = gnode.args
-        if a.vararg or a.kwarg or any(isinstance(x, ast.Starred) for x in call.args) or any(k.arg is None for k in call.keywords):
+        if a.kwarg or any(isinstance(x, ast.Starred) for x in call.args) or any(k.arg is None for k in call.keywords):
             raise CannotInline("star-arguments")
         is_gen = any(isinstance(n, (ast.Yield, ast.YieldFrom)) for n in ast.walk(gnode))
         if is_gen != generator:
@@ -361,10 +417,17 @@ class Flattener:
                     raise CannotInline("unbound method call")
                 bound[selfp] = recv
         npos = len(a.posonlyargs) + len(a.args) - (1 if is_bound_method else 0)
+        extra_pos = []
         if len(call.args) > npos:
-            raise CannotInline("too many positional arguments")
-        for p, x in zip(plist, call.args):
+            if not a.vararg:
+                raise CannotInline("too many positional arguments")
+            extra_pos = list(call.args[npos:])
+        for p, x in zip(plist, call.args[:npos]):
             bound[p] = x
+        if a.vararg:
+            # `*args` of the helper: the tuple of the extra positional arguments of this call
+            params = params + [a.vararg.arg]
+            bound[a.vararg.arg] = ast.copy_location(ast.Tuple(elts=extra_pos, ctx=ast.Load()), call)
         for k in call.keywords:
             if k.arg not in plist or k.arg in bound:
                 raise CannotInline("keyword %s" % k.arg)
@@ -378,6 +441,7 @@ class Flattener:
         inner_args = {x.arg for n in ast.walk(gnode) if isinstance(n, ast.Lambda) for x in n.args.args}
         mapping = {}
         consts = {}
+        exprs = {}
         pre = []
         is_closure = g.parent is not None
         for p in params:
@@ -388,6 +452,9 @@ class Flattener:
                 mapping[p] = x.id
             elif isinstance(x, ast.Constant) and (x.value is None or isinstance(x.value, (bool, int, float, str))) and p not in stored:
                 consts[p] = x  # a constant argument (a flag) is substituted; tests on it are folded below
+            elif isinstance(x, ast.Tuple) and len(x.elts) <= 4 and p not in stored and all(isinstance(e_, (ast.Name, ast.Constant)) for e_ in x.elts) \
+                    and all(not isinstance(e_, ast.Name) or e_.id in caller_names for e_ in x.elts) and _only_iterated_or_starred(gnode, p):
+                exprs[p] = x  # a literal tuple of plain names that the helper only iterates / splices: substituted, loops unrolled
             else:
                 new = p if (p not in caller_names and not is_closure) else p + sfx
                 mapping[p] = new
@@ -406,6 +473,11 @@ class Flattener:
         new_body = _xform(body, _set_ret(retvar, None, call) if want_value else [], retvar)
         holder = ast.Module(body=new_body, type_ignores=[])
         _Rename(mapping).visit(holder)
+        if exprs:
+            # (after the renaming of the helper's locals, so that the caller's names in the tuple are not captured)
+            _SubstExpr(exprs).visit(holder)
+            _SpliceStarredTuples().visit(holder)
+            holder.body = _unroll_literal_loops(holder.body)
         self.log.append((fn.qual, g.qual, getattr(call, "lineno", 0)))
         return pre + holder.body, retvar
 
